@@ -156,10 +156,11 @@ def reduce_case(sink, seed, idx):  # noqa: C901
         return rng.random() < 0.6
 
     tree, _ = gen.materialize(desc, rng, leaf_of=leaf_of)
-    nil = rng.random() < 0.3 and style != 'int' and style != 'str' and style != 'bytes'
+    nil = rng.random() < 0.25  # None leaves make the arithmetic folds raise in python and in optree alike (parity of the exception type)
     ns = rng.choice(U.NAMESPACES)
-    kw = dict(none_is_leaf=False, namespace=ns)
-    ident = dict(gen='c03red', seed=seed, index=idx, style=style, desc=desc.short()[:300], ns=ns)
+    pred = rng.choice(['none', 'none', 'is_list', 'pair', 'short_list'])
+    kw = dict(none_is_leaf=nil, namespace=ns, is_leaf=gen.PREDICATES[pred])
+    ident = dict(gen='c03red', seed=seed, index=idx, style=style, desc=desc.short()[:300], ns=ns, nil=nil, pred=pred)
     lv = [x for x in optree.tree_leaves(tree, **kw)]
     # custom leaves (CNs outside its namespace etc.) may be non-numeric: restrict folds to what python can fold
 
@@ -195,7 +196,8 @@ def reduce_case(sink, seed, idx):  # noqa: C901
     sink.count('reduce-cases')
     if not lv:
         sink.count('reduce-empty-trees')
-    sink.case(harness.fp('red', desc.short(), style, ns), len(lv) >= 2, dict(ident, leaves=len(lv)))
+    sink.cell('reduce', style, nil, pred)
+    sink.case(harness.fp('red', desc.short(), style, ns, nil, pred), len(lv) >= 2, dict(ident, leaves=len(lv)))
 
 
 TRAVERSALS = {
